@@ -273,7 +273,12 @@ def explore_engine(ctx, props, n_prim, n_op, n_intr=0, p_template=0.15, op_switc
         mode = "prim" if i < n_prim or i >= n_prim + n_op else "opcode"
         intr = None
         if i >= n_prim + n_op:
-            case["failing"] = {}
+            # two thirds of the interrupted runs have no failing call; in the others a call may already have failed when the
+            # interrupt arrives (max_errors lets the run go on): KeyboardInterrupt must still be what the caller sees
+            if rng.random() < 0.67:
+                case["failing"] = {}
+            elif case["failing"]:
+                case["max_errors"] = rng.choice([None, None, 2, len(case["failing"])])
             intr = rng.randint(1, max(1, case["n"]))
         seed = rng.randrange(1 << 30)
         osp = rng.choice(op_switch)
